@@ -493,11 +493,6 @@ func runDispatch(c *Ctx, r *Reporter) {
 		symByVal[k.Val().ExactString()] = sym
 	}
 	// opsCompared: the operator symbols an SSA function and its helpers compare an Operator-typed value with
-	anchoredOps := map[string]bool{"evalBinaryNumExpr": true, "evalBinaryStringExpr": true, "evalBinaryBoolExpr": true, "evalBinaryArrayExpr": true, "canShortCircuit": true, "evalUnaryExpr": true,
-		"compileNumBinaryExpression": true, "compileStringBinaryExpression": true, "compileUnaryExpression": true}
-	for k := range dispatcherNames {
-		anchoredOps[k] = true
-	}
 	opsCompared := func(fd *FuncDecl) map[string]bool {
 		out := map[string]bool{}
 		for _, fn := range regionFns(p.SSAFunc(fd.Obj), 2, anchoredOps) {
@@ -567,13 +562,18 @@ func runDispatch(c *Ctx, r *Reporter) {
 	// parser: validateBinaryType
 	if fd := FindFunc(pkg, "(*parser).validateBinaryType"); fd != nil {
 		var sws []*ast.SwitchStmt
+		var swScope ast.Node
 		for _, fn := range regionFns(p.SSAFunc(fd.Obj), 2, dispatcherNames) {
 			if obj, ok := fn.Object().(*types.Func); ok {
 				for _, d2 := range Funcs(pkg) {
 					if d2.Obj == obj {
-						sws = append(sws, findSwitches(d2.Decl.Body, func(s *ast.SwitchStmt) bool {
+						found := findSwitches(d2.Decl.Body, func(s *ast.SwitchStmt) bool {
 							return s.Tag != nil && isNamed(pkg.TypesInfo.TypeOf(s.Tag), pkg.PkgPath, "Operator")
-						})...)
+						})
+						if len(sws) == 0 && len(found) > 0 {
+							swScope = d2.Decl.Body
+						}
+						sws = append(sws, found...)
 					}
 				}
 			}
@@ -599,7 +599,7 @@ func runDispatch(c *Ctx, r *Reporter) {
 					undec = true
 					continue
 				}
-				kinds, ok := admittedKinds(pkg.TypesInfo, ifs.Cond)
+				kinds, ok := admittedKinds(pkg.TypesInfo, ifs.Cond, swScope)
 				if !ok {
 					undec = true
 					continue
@@ -669,10 +669,45 @@ func runDispatch(c *Ctx, r *Reporter) {
 }
 
 // admittedKinds extracts K1..Kn from `leftType != K1 && leftType != K2 && leftType.Name != ARRAY`.
-func admittedKinds(info *types.Info, cond ast.Expr) ([]string, bool) {
+func admittedKinds(info *types.Info, cond ast.Expr, scope ast.Node) ([]string, bool) {
 	var out []string
+	// local booleans defined once as a comparison (isNum := leftType == NUM_TYPE) stand for it
+	defs := map[types.Object]ast.Expr{}
+	assigned := map[types.Object]int{}
+	if scope != nil {
+		ast.Inspect(scope, func(n ast.Node) bool {
+			if as, ok := n.(*ast.AssignStmt); ok && len(as.Lhs) == len(as.Rhs) {
+				for i, l := range as.Lhs {
+					if id, ok := l.(*ast.Ident); ok {
+						if obj := info.ObjectOf(id); obj != nil {
+							assigned[obj]++
+							defs[obj] = as.Rhs[i]
+						}
+					}
+				}
+			}
+			return true
+		})
+	}
 	var walk func(e ast.Expr) bool
+	var walkNeg func(e ast.Expr, depth int) bool
+	walkNeg = func(e ast.Expr, depth int) bool { // e is negated: it must be `x == K`, or a local that stands for that
+		switch x := ast.Unparen(e).(type) {
+		case *ast.BinaryExpr:
+			if x.Op == token.EQL {
+				return walk(&ast.BinaryExpr{X: x.X, Op: token.NEQ, Y: x.Y, OpPos: x.OpPos})
+			}
+		case *ast.Ident:
+			if obj := info.ObjectOf(x); obj != nil && assigned[obj] == 1 && depth < 3 {
+				return walkNeg(defs[obj], depth+1)
+			}
+		}
+		return false
+	}
 	walk = func(e ast.Expr) bool {
+		if ue, ok := ast.Unparen(e).(*ast.UnaryExpr); ok && ue.Op == token.NOT {
+			return walkNeg(ue.X, 0)
+		}
 		be, ok := ast.Unparen(e).(*ast.BinaryExpr)
 		if !ok {
 			return false
@@ -1171,3 +1206,14 @@ func lastConsumingCalls(ret *ssa.Return, a *eolAnalysis, adv *ssa.Function) []ss
 	walk(blk, len(blk.Instrs)-1)
 	return bad
 }
+
+// anchoredOps: the per-kind operator functions that rules anchor on themselves; a region that follows extracted helpers
+// stops at them (and at the dispatchers).
+var anchoredOps = func() map[string]bool {
+	m := map[string]bool{"evalBinaryNumExpr": true, "evalBinaryStringExpr": true, "evalBinaryBoolExpr": true, "evalBinaryArrayExpr": true, "canShortCircuit": true, "evalUnaryExpr": true,
+		"compileNumBinaryExpression": true, "compileStringBinaryExpression": true, "compileUnaryExpression": true}
+	for k := range dispatcherNames {
+		m[k] = true
+	}
+	return m
+}()
